@@ -85,12 +85,19 @@ SHALLOW_CASES = [
     (("store_meta", "p", None, "v1"), "p=S1,q=S2", "store metadata [depth 1 width 1]", "1x1"),
 ]
 
+# a directory listing in the other order: the calls that walk a pid's two documents
+LISTING_CASES = [
+    (("delete", "p"), "p=A+docs,q=B", "delete sole reference with metadata [listing reversed]", "rev"),
+    (("delete_meta", "p", None), "p=A+docs,q=B", "delete all metadata documents [listing reversed]", "rev"),
+]
+
 _TREES = {}
 
 
 def configure(cfg=None):
     """Select the store configuration the following calls of this module use (per job; default: depth 3, width 2)."""
     global P, LAYOUT
+    env.STATE.list_reverse = cfg == "rev"  # environment answer: directory listings in reverse order
     P = tscen.P11 if cfg == "1x1" else tscen.P
     LAYOUT = Layout(P["depth"], P["width"], P["algo"])
 
